@@ -55,7 +55,12 @@ type vfile struct {
 	Records   int // vertices+faces / triangles / points / splats stored in the file
 	PTS1      *ptsSingle
 	Splat     bool
-	dec       func(io.Reader) (*modeling.Mesh, error)
+	SPZDeg    int    // SH degree of an SPZ file, -1 otherwise
+	SPZGz     string // "stored" (level 0 blocks) or "deflated"
+	// sampling hints of the large-files phase
+	BodyStart    int
+	BlockOffsets []int // offsets at which record 1024·k / 2048·k / 4096·k … starts
+	dec          func(io.Reader) (*modeling.Mesh, error)
 }
 
 func decPLY(r io.Reader) (*modeling.Mesh, error) { return ply.ReadMesh(r) }
@@ -107,6 +112,14 @@ const kinds = 16
 // buildFile is a pure function of (seed, file index, tier): every chunk case of a file
 // regenerates exactly the same bytes.
 func buildFile(seed uint64, fi int, tier string) *vfile {
+	f := buildFile0(seed, fi, tier)
+	if f.Format != "spz" {
+		f.SPZDeg = -1
+	}
+	return f
+}
+
+func buildFile0(seed uint64, fi int, tier string) *vfile {
 	r := rand.New(rand.NewSource(int64(run.Mix(seed, 0xC14F11E5, uint64(fi)))))
 	kind, v := fi%kinds, fi/kinds
 	large := tier == "thorough" && v%8 == 7
@@ -518,7 +531,7 @@ func spzFile(r *rand.Rand, version uint32, v int, large bool) *vfile {
 	data := s.Gzip(lv)
 	return &vfile{Format: "spz", Kind: fmt.Sprintf("spz/v%d/reference-encoder", version), Site: "spz.Read", Data: data, dec: decSPZ,
 		Records: n, WantPrims: n, Marks: []mark{{"gzip-header", 0}, {"deflate", 10}, {"gzip-trailer", len(data) - 8}},
-		Desc: fmt.Sprintf("sh%d/n%s/gz%d", deg, bucket(n), lv)}
+		Desc: fmt.Sprintf("sh%d/n%s/gz%d", deg, bucket(n), lv), SPZDeg: int(deg), SPZGz: map[bool]string{true: "stored", false: "deflated"}[lv == gzip.NoCompression]}
 }
 
 func ptsFile(r *rand.Rand, v int, large bool) *vfile {
